@@ -181,6 +181,13 @@ class Client:
                     raise Error("Connection closed by server")
                 if m.group(1) == b"NO":
                     self.__parse_error(m.group(2))
+                elif m.group(2) is not None:
+                    # the text of an OK reply may be sent as a literal too
+                    tail = self.__error_expr.match(m.group(2))
+                    if tail.group(2) is not None:
+                        msize = self.__size_expr.match(tail.group(2))
+                        if msize is not None:
+                            self.__read_block(int(msize.group(1)) + 2)
                 raise Response(m.group(1), m.group(2))
         return ret
 
